@@ -17,6 +17,10 @@ PROFILES = {
                      kinds=["ok", "ok", "moved", "ask", "nil"], slots=["A", "B", "B2", "C"], burst=(1, 3)),
     "redirunk": dict(clients=2, steps=(4, 12), menu=["get", "set", "mget", "del", "ping"],
                      kinds=["ok", "ok", "moved", "ask", "movedunk", "nil"], slots=["A", "B", "C"], burst=(1, 3)),
+    # errors and redirects together: an error completes a split request while a sibling fragment is still being redirected
+    "errredir": dict(clients=2, steps=(4, 12), menu=["get", "mget", "del", "mset", "mget", "ping"],
+                     kinds=["ok", "err", "err", "moved", "ask", "nil"], slots=["A", "B", "C"], burst=(1, 3),
+                     errcls=["ERR", "LOADING", "CLUSTERDOWN", "TRYAGAIN"]),
     "bclose": dict(clients=2, steps=(4, 12), menu=["get", "set", "mget", "del", "mset", "ping"],
                    kinds=["ok", "ok", "nil"], slots=["A", "B", "C"], burst=(1, 3), p_bclose=0.18, p_head=0.05),
     "timeout": dict(clients=2, steps=(4, 12), menu=["get", "set", "mget", "del", "ping"],
